@@ -111,7 +111,7 @@ def exec_repair(c):
             df = {"off": reset_index, "somas": mark_roots_as_somas, "nearest": link_roots_to_nearest}[mode](df0)
             if not df0.equals(before):
                 return {"R": [], "attrok": 0, "warned": 0, "via": via, "note": "copying normaliser modified its input"}
-    warned = int(any("not a simple tree" in str(w.message) for w in ws))
+    warned = int(len(ws) > 0)          # "with a warning": any warning, whatever its text or category
     idl = [int(v) for v in df["id"]]
     R = [(-1 if int(p) == -1 else (idl.index(int(p)) if int(p) in idl else -2)) for p in df["pid"]]
     first = min(k for k in range(n) if F[k] == -1)
